@@ -444,7 +444,7 @@ func ruleJ4(c *Ctx, inj *Module) {
 			got[dropIdx(fl.Src.PathString())] = dropIdx(fl.Path)
 		}
 		for i := 0; i < st.NumFields(); i++ {
-			fn := st.Field(i).Name()
+			fn := fname(st.Field(i))
 			dst, ok := got[fn]
 			bad := ""
 			if !ok {
